@@ -52,6 +52,9 @@ func blankReg(op string) regName {
 
 func declaredTypes(t *testing.T) []string {
 	dir := "/repo/knx/dpt"
+	if r := os.Getenv("VERIF_REPO"); r != "" { // (mutation runs work on a scratch worktree)
+		dir = r + "/knx/dpt"
+	}
 	if d := os.Getenv("VERIF_REPO"); d != "" {
 		dir = filepath.Join(d, "knx/dpt")
 	}
